@@ -6,7 +6,7 @@ cd "$ROOT"
 pat="${1:-*}"
 out="$ROOT/seeded/MATRIX.txt"
 tmp="$(mktemp)"
-echo "# seeded change -> target check, quick tier, seed ${VERIF_SEED:-0}, /repo at $(git -C /repo rev-parse --short HEAD), /verif at $(git rev-parse --short HEAD)" > "$tmp"
+echo "# seeded change -> target check, quick tier, seed ${VERIF_SEED:-0}, /repo at $(git -C "${REPO:-/repo}" rev-parse --short HEAD), /verif at $(git rev-parse --short HEAD)" > "$tmp"
 for d in seeded/$pat/; do
   n=$(basename "$d"); id=${n%%-*}
   [ -f "$d/patch.diff" ] || continue
